@@ -20,6 +20,7 @@ from . import VERIF, use_repo
 use_repo()
 
 from . import families, plans, runner, tlc  # noqa: E402
+from . import findings  # noqa: E402
 from .findings import classify, load_known  # noqa: E402
 
 
@@ -32,6 +33,35 @@ def write_replay(prop, payload):
     with open(path, "w") as f:
         f.write(blob)
     return path
+
+
+def _spec_clauses(known, prop, fails, by_id):
+    """For falsified clauses that a known finding of `prop` might explain: run the specification
+    itself on the model of the failing run (Gen_SpecRun) and note which clauses *its* behaviour
+    falsifies there (f["spec_clauses"]).  The findings are identified by exactly that: the
+    specification models the defective behaviour, so (model, clause) is the recorded finding iff
+    the specification's own run on that model falsifies that clause."""
+    entries = [e for e in known if e["property"] == prop]
+    if not entries:
+        return
+    want = {}
+    for f in fails:
+        cl, case = f["clause"], by_id.get(f["case"])
+        if case is None or not any(cl == c or cl.startswith(c) for e in entries for c in e["clauses"]):
+            continue
+        if not findings.nested_product(case, f):
+            continue
+        run = case["runs"][f["run"] - 1] if 0 < f["run"] <= len(case["runs"]) else case["runs"][0]
+        cfg = run.get("cfg") or case["cfg"]
+        key = json.dumps([cfg, run["opts"]], sort_keys=True)
+        want.setdefault(key, (cfg, run["opts"], []))[2].append(f)
+    if not want:
+        return
+    keys = sorted(want)
+    sets = runner.spec_falsifies([(want[k][0], want[k][1]) for k in keys], prop)
+    for k, cls in zip(keys, sets):
+        for f in want[k][2]:
+            f["spec_clauses"] = sorted(cls)
 
 
 def main(argv=None):
@@ -61,6 +91,7 @@ def main(argv=None):
                     "events": sum(len(r.get("ev", [])) for c in recs for r in c["runs"])}
     by_id = {c["cfg"]["id"]: c for c in recs}
     nontrivial = plans.nontrivial(prop, recs)
+    _spec_clauses(known, prop, res["fails"], by_id)
     for f in res["fails"]:
         cl = f["clause"]
         cov["clauses_failed"][cl] = cov["clauses_failed"].get(cl, 0) + 1
@@ -84,6 +115,7 @@ def main(argv=None):
             # a counterexample of the specification counts only if the real code reproduces it
             rep = runner.replay_counterexample(r, prop)
             if rep["reproduced"]:
+                _spec_clauses(known, prop, rep["fails"], {rep["case"]["cfg"]["id"]: rep["case"]})
                 for f in rep["fails"]:
                     kf = classify(known, prop, f["clause"], rep["case"], f)
                     (out["known"] if kf else out["violations"]).append((f, kf, rep["case"]))
